@@ -11,6 +11,12 @@ Translated (Python ast -> Gallina over `string`, fail closed):
                                       (+ `inflight_paths_equal : ... = ...` by eq_refl: the build breaks if they differ)
   DEFAULT_INFLIGHT_TIMEOUT_MS, DEFAULT_GRACE_MS (collect), TABLE_DEFAULT_GRACE_MS (Table.garbage_collect)
   MARKERS_FIRST                       whether collect() loads the in-flight protection before it reads the metadata
+  append_accepts_path normpath file_path
+                                      Transaction.append_files: the conjunction of the pure path guards it applies to EVERY file
+                                      unconditionally (`self._require_*(data_file.file_path)` statements at the top level of its
+                                      `for data_file in files` loop, each guard a static method of the shape assignments +
+                                      `if <test>: raise`); posixpath.normpath is a parameter.  No such guard -> `true`: what the
+                                      manifests may name is then whatever exists (Proofs/GCAcceptProofs.v fails, as it must).
 
 Pinned (hand-modelled in Model/GC.v): FileManager.read_manifest(_list)_file's Avro attempt catches exactly
 (ValueError, IndexError, StopIteration, OSError) and falls through to a JSON fallback that raises on failure;
@@ -29,12 +35,13 @@ from core import Unsupported, coq_str, dump, find_function, generator, parse_mod
 
 # ----------------------------------------------------------------------------- string expressions
 class Env:
-    def __init__(self, strs: Dict[str, str], consts: Optional[Dict[str, str]] = None):
+    def __init__(self, strs: Dict[str, str], consts: Optional[Dict[str, str]] = None, funcs: Optional[Dict[str, str]] = None):
         self.strs = dict(strs)          # python local name -> coq identifier (string-typed)
         self.consts = dict(consts or {})  # module-level names -> coq identifier
+        self.funcs = dict(funcs or {})  # "module.function" (str -> str, external) -> coq identifier of a function parameter
 
     def bind(self, name: str) -> "Env":
-        e = Env(self.strs, self.consts)
+        e = Env(self.strs, self.consts, self.funcs)
         e.strs[name] = name
         return e
 
@@ -82,6 +89,8 @@ def sexpr(n: ast.AST, env: Env) -> str:
         m = n.func.attr
         if m in ("lstrip", "rstrip", "strip"):
             return f"({m}_c {_one_char(n.args, m)} {sexpr(n.func.value, env)})"
+        if isinstance(n.func.value, ast.Name) and f"{n.func.value.id}.{m}" in env.funcs and len(n.args) == 1:
+            return f"({env.funcs[n.func.value.id + '.' + m]} {sexpr(n.args[0], env)})"
     if isinstance(n, ast.Subscript):
         s = n.slice
         # x.rsplit("/", 1)[-1]
@@ -442,6 +451,74 @@ def register_terms(fn: ast.FunctionDef, consts: Dict[str, str]) -> Tuple[str, st
     return wrap(path_term), wrap(payload_term)
 
 
+# ----------------------------------------------------------------------------- append_files acceptance guards
+def guard_term(body: List[ast.stmt], env: Env, fname: str) -> str:
+    """Body of a guard method: (imports,) assignments and `if <test>: raise ...` only -> `true` iff no raise is reached."""
+    if not body:
+        return "true"
+    s, rest = body[0], body[1:]
+    if isinstance(s, ast.Import):
+        return guard_term(rest, env, fname)
+    if isinstance(s, ast.Assign) and len(s.targets) == 1 and isinstance(s.targets[0], ast.Name):
+        name = s.targets[0].id
+        return f"(let {name} := {sexpr(s.value, env)} in\n   {guard_term(rest, env.bind(name), fname)})"
+    if isinstance(s, ast.If) and not s.orelse and len(s.body) == 1 and isinstance(s.body[0], ast.Raise):
+        return f"(negb {bexpr(s.test, env)}\n   && {guard_term(rest, env, fname)})"
+    raise Unsupported(f"{fname}: statement not supported in a path guard: {dump(s)}")
+
+
+def acceptance_term(tx: ast.Module) -> Tuple[str, List[str]]:
+    """Transaction.append_files: what is demanded of data_file.file_path for EVERY file, before the operation is queued."""
+    fn = find_function(tx, "append_files", cls="Transaction")
+    if [a.arg for a in fn.args.args] != ["self", "files"]:
+        raise Unsupported("append_files signature changed")
+    body = strip_docstring(fn.body)
+    loops = [s for s in body if isinstance(s, ast.For)]
+    if len(loops) != 1:
+        raise Unsupported(f"append_files: expected one loop over the files, found {len(loops)}")
+    loop = loops[0]
+    if not (isinstance(loop.target, ast.Name) and isinstance(loop.iter, ast.Name) and loop.iter.id == "files" and not loop.orelse):
+        raise Unsupported("append_files: the loop is no longer `for <name> in files`")
+    var = loop.target.id
+    queued = [i for i, s in enumerate(body) if isinstance(s, ast.Expr) and isinstance(s.value, ast.Call)
+              and _self_chain(s.value.func) == "_operations.append"]
+    if len(queued) != 1 or queued[0] < body.index(loop):
+        raise Unsupported("append_files: the operation is not queued exactly once, after the loop over the files")
+    for s in body[:queued[0]]:
+        # nothing before the queueing statement may leave the function normally (a `return` would skip the guards' effect)
+        for n in ast.walk(s):
+            if isinstance(n, ast.Return):
+                raise Unsupported("append_files: a return before the operation is queued")
+    for n in ast.walk(loop):
+        if isinstance(n, (ast.Continue, ast.Break)):
+            raise Unsupported("append_files: continue / break in the loop over the files (a file could skip its guards)")
+    terms: List[str] = []
+    names: List[str] = []
+    for s in loop.body:
+        if not (isinstance(s, ast.Expr) and isinstance(s.value, ast.Call)):
+            continue                      # existence, format and schema tests: not path guards (existence is has_key in the model)
+        c = s.value
+        ch = _self_chain(c.func)
+        if ch is None or "." in ch or c.keywords or len(c.args) != 1:
+            continue
+        a = c.args[0]
+        if not (isinstance(a, ast.Attribute) and isinstance(a.value, ast.Name) and a.value.id == var and a.attr == "file_path"):
+            continue
+        g = find_function(tx, ch, cls="Transaction")
+        params = [x.arg for x in g.args.args]
+        if params and params[0] == "self":
+            params = params[1:]
+        if len(params) != 1:
+            raise Unsupported(f"{ch}: a path guard takes the path only")
+        env = Env({params[0]: "file_path"}, funcs={"posixpath.normpath": "normpath"})
+        terms.append(guard_term(strip_docstring(g.body), env, ch))
+        names.append(ch)
+    out = "true"
+    for t in reversed(terms):
+        out = f"({t}\n   && {out})"
+    return out, names
+
+
 @generator("GenNorm.v")
 def gen_norm(src: str) -> str:
     gc = parse_module(src, "garbage_collector.py")
@@ -476,6 +553,7 @@ def gen_norm(src: str) -> str:
     if [a.arg for a in reg.args.args] != ["self", "file_path"]:
         raise Unsupported("_register_inflight signature changed")
     reg_path, reg_payload = register_terms(reg, {"_INFLIGHT_PATH": "TX_INFLIGHT_PATH"})
+    accept_term, accept_names = acceptance_term(tx)
 
     # hand-modelled control structure: pinned
     fm = parse_module(src, "file_manager.py")
@@ -518,4 +596,9 @@ Definition register_marker_path (file_path : string) : string :=
   {reg_path}.
 Definition register_marker_payload (file_path : string) : string :=
   {reg_payload}.
+
+(* Transaction.append_files: the path guards applied to every file unconditionally ({", ".join(accept_names) or "none"});
+   posixpath.normpath is a parameter *)
+Definition append_accepts_path (normpath : string -> string) (file_path : string) : bool :=
+  {accept_term}.
 """
